@@ -47,6 +47,12 @@ although the instruction documentation does not say so (U4); M now treats that a
 already did; (3) `extra-unused-local` is a true positive of C11, kept for the record: the `+ 1`
 turns the unchecked `locals - parameters` underflow for `function first(a, a)` into a program that
 the release build compiles and the debug build refuses.
+
+The whole set was re-run against the final harness (all 17 quick checks per patch). Two further
+alarms appeared, both false alarms of stages added late, both corrected (12.4): the deep-call-stack
+stage of C10 demanded that a cyclic print *fails* (`cyclic-print-renders-ellipsis`), and U-SCALE16
+sat on the exact maximum frame size, which `extra-unused-local` legitimately lowers by one (C01).
+After the corrections the only alarm left is C11's on `extra-unused-local`.
 '''
 body = "<!-- SEED-MATRIX-BEGIN -->\n" + intro + seeds.strip() + "\n\n" + btext + "<!-- SEED-MATRIX-END -->"
 p = os.path.join(VERIF, "DESIGN.md")
